@@ -12,21 +12,27 @@ namespace JSL
 
 /-! ## outage_utils -/
 
+/-- `_get_duration` of `outage_utils`: time since the outage was last active (`NoTime` counts as 0) -/
+def outageSince (now : Int) : OutSt → Except Err Int
+  | .active _ _ => throw .valueError
+  | .inactive none => pure (now - 0)
+  | .inactive (some l) => pure (now - l)
+
+/-- `_should_apply_based_on_frequency` -/
+def shouldApply (orc : Oracle) (r : Rng) (freq : TimeCfg) (since : Int) : Bool × Rng :=
+  match freq with
+  | .det f => (decide (f ≥ since), r)
+  | .stoch sid => if since > orc sid (r sid) then (true, r.bump sid) else (false, r)
+
 /-- `_sample_from_outage_obj` -/
 def sampleOutage (orc : Oracle) (now : Int) (comp : List OutageState) (r : Rng) (o : OutageCfg) :
     Except Err (OutageState × Rng) := do
   let st ← findE (fun x => x.id == o.id) comp .valueError
-  let since ← match st.st with
-    | .active _ _ => throw .valueError
-    | .inactive none => pure (now - 0)
-    | .inactive (some l) => pure (now - l)
-  -- `_should_apply_based_on_frequency`
-  let (apply, r) := match o.freq with
-    | .det f => (decide (f ≥ since), r)
-    | .stoch sid => if since > orc sid (r sid) then (true, r.bump sid) else (false, r)
-  if !apply then pure (st, r) else
-  let (d, r) := o.dur.updRead orc r
-  pure ({ id := o.id, st := .active now (now + d) }, r)
+  let since ← outageSince now st.st
+  let ar := shouldApply orc r o.freq since
+  if !ar.1 then pure (st, ar.2) else
+  let dr := o.dur.updRead orc ar.2
+  pure ({ id := o.id, st := .active now (now + dr.1) }, dr.2)
 
 /-- `get_new_outage_states` for an explicit list of outage configs -/
 def newOutageStates (orc : Oracle) (now : Int) (comp : List OutageState) :
